@@ -120,11 +120,11 @@ func vBuildProject(n int) ([]vType, *JSchema) {
 	}
 	// the root IS the type @a: checked under its own name with every type
 	// (itself included) registered, as a JSight API document does
-	root := New(vTypeName(0), vTypeText(ts[0]))
+	texts := make([]string, n)
 	for i := range ts {
-		_ = root.AddType(vTypeName(i), New(vTypeName(i), vTypeText(ts[i])))
+		texts[i] = vTypeText(ts[i])
 	}
-	return ts, root
+	return ts, vLinkProject(texts, zzverif.Bool("linked"))
 }
 
 // VerifC06_Recursion: all reference graphs over N object types with 1-2
@@ -220,10 +220,8 @@ func VerifC06_ChoiceShapes() {
 		}
 		return vTypeText(ts[i])
 	}
-	root := New(vTypeName(0), text(0))
-	for i := range ts {
-		_ = root.AddType(vTypeName(i), New(vTypeName(i), text(i)))
-	}
+	texts := []string{text(0), text(1), text(2), text(3)}
+	root := vLinkProject(texts, zzverif.Bool("linked"))
 	fin := vFinite(ts)
 	self := vSelfRequiring(ts, 0)
 	zzverif.Known("C06-long-mandatory-cycle", self && vShortestSelfCycle(ts, 0) >= 3)
@@ -243,4 +241,21 @@ func VerifC06_ChoiceShapes() {
 		_, ok := zzjson.Decode(ex)
 		zzverif.Assert(ok, "Example() of an accepted schema is RFC 8259 JSON")
 	}
+}
+
+// vLinkProject builds the root (= type @a under its own name) with every type
+// registered. With linked, every type's own schema also gets every type
+// registered (as a document processor that resolves all types everywhere does).
+func vLinkProject(texts []string, linked bool) *JSchema {
+	root := New(vTypeName(0), texts[0])
+	for i := range texts {
+		t := New(vTypeName(i), texts[i])
+		if linked {
+			for j := range texts {
+				_ = t.AddType(vTypeName(j), New(vTypeName(j), texts[j]))
+			}
+		}
+		_ = root.AddType(vTypeName(i), t)
+	}
+	return root
 }
